@@ -408,6 +408,25 @@ func c13Cycles(c *core.Ctx) {
 		for _, e := range v.Edges {
 			p.Services[sched.Name(e[0])].DependsOn[sched.Name(e[1])] = types.ServiceDependency{Condition: types.ServiceConditionStarted, Required: true}
 		}
+		// optional dependencies on a service that is absent and on one that is disabled are no edges; they must neither
+		// hide a cycle nor be removed from the project (every graph is built several times: map ranges differ)
+		p.DisabledServices = types.Services{"off": types.ServiceConfig{Name: "off", Image: "x", Profiles: []string{"never"}}}
+		for i := 1; i <= v.N; i++ {
+			p.Services[sched.Name(i)].DependsOn["ghost"] = types.ServiceDependency{Condition: types.ServiceConditionStarted, Required: false}
+			if i%2 == 0 {
+				p.Services[sched.Name(i)].DependsOn["off"] = types.ServiceDependency{Condition: types.ServiceConditionHealthy, Required: false}
+			}
+		}
+		beforeProject := fmt.Sprintf("%#v", p)
+		for rep := 0; rep < 4; rep++ {
+			if ccErr := graph.CheckCycle(p); v.Cyclic && ccErr == nil {
+				c.Report(core.Finding{Sig: "cycle-accepted", Detail: fmt.Sprintf("cyclic graph %v (n=%d, with optional dependencies on absent services) accepted by CheckCycle at repetition %d", v.Edges, v.N, rep), Replay: v})
+			}
+			if after := fmt.Sprintf("%#v", p); after != beforeProject {
+				c.Report(core.Finding{Sig: "project-modified", Detail: fmt.Sprintf("building the graph of %v modified the project: %s", v.Edges, firstDiff(beforeProject, after)), Replay: v})
+				break
+			}
+		}
 		var visits int32
 		for dir := 0; dir < 2; dir++ {
 			var opts []func(*graph.Options)
